@@ -17,7 +17,7 @@ func CompileGlobs(globs []string) (*regexp.Regexp, error) {
 	// \] -> \?
 
 	var pattern strings.Builder
-	pattern.WriteRune('^')
+	pattern.WriteString("^(?s:")
 	for i, g := range globs {
 		if i > 0 {
 			pattern.WriteRune('|')
@@ -58,7 +58,7 @@ func CompileGlobs(globs []string) (*regexp.Regexp, error) {
 		}
 		pattern.WriteRune(')')
 	}
-	pattern.WriteRune('$')
+	pattern.WriteString(")$")
 
 	return regexp.Compile(pattern.String())
 }
